@@ -77,7 +77,7 @@ func c04TokVal(t string) (v interface{}, present bool) {
 }
 
 // string alphabet: separator-like bytes of all encoders, the NULL markers' letters, plain letters
-var c04Frag = []string{"x", "y", "z", "<nil>", "|", "|", "\\", "\x1f", "\x1f", ",", "\x00", "N", "\x00NULL", "\\N", "", "s:", "1", ":"}
+var c04Frag = []string{"x", "y", "z", "<nil>", "中", "席", "-", "Ł", "A", "|", "|", "\\", "\x1f", "\x1f", ",", "\x00", "N", "\x00NULL", "\\N", "", "s:", "1", ":"}
 
 func c04Str(rng *rand.Rand) string {
 	n := rng.Intn(4)
@@ -165,6 +165,26 @@ func c04TuplePool(rng *rand.Rand, arity, size int) [][]string {
 				u := append([]string(nil), t...)
 				u[i] = v
 				pool = append(pool, u)
+			}
+		}
+		if arity >= 1 && rng.Intn(4) == 0 {
+			// multi-byte twins whose code points share the low byte (U+4E2D / U+5E2D / '-', U+0141 / 'A'), next to a separator
+			// or the escape byte: an encoder that truncates code points to bytes merges them
+			i := rng.Intn(arity)
+			if tys[i] == 0 {
+				sep := []string{"|", "\\", "\x1f", "|1"}[rng.Intn(4)]
+				pre := []string{"", "x"}[rng.Intn(2)]
+				tw := [][]string{{"中", "席", "-"}, {"Ł", "A"}}[rng.Intn(2)]
+				front := rng.Intn(2) == 0
+				for _, ch := range tw {
+					u := append([]string(nil), t...)
+					if front {
+						u[i] = c04ValTok(pre+ch+sep, true)
+					} else {
+						u[i] = c04ValTok(pre+sep+ch, true)
+					}
+					pool = append(pool, u)
+				}
 			}
 		}
 		if arity >= 1 && rng.Intn(4) == 0 {
